@@ -1,5 +1,6 @@
 import Casket.Proofs.FileServe
 import Casket.Spec.Chain
+import Casket.Model.Cond
 /-
 Helper lemmas for C03 (core Lean only).
 
@@ -8,6 +9,7 @@ Helper lemmas for C03 (core Lean only).
   §3  which path a 200 file body was opened under
   §4  basicauth and internal in front of the content handlers; the direct-request theorem
   §5  the partial no-disclosure theorem (hypotheses exclude exactly the known findings)
+  §7  archives and proxies: scopes that do not lie strictly above a protection scope are safe
   §6  a syntactic sufficient condition: directory scopes in normal form are safe for index
       pages and precompressed siblings (lower-casing commutes with splitting at a slash …)
 -/
@@ -233,7 +235,8 @@ theorem staticContent_file_cases {fs : FS} {site : Site} {r : Req} {d : Entry} {
     (hd : dirOpen fs site.root p = .ok d) (h : staticContent fs site r d p = .file ino enc) :
     ∃ q0 e0, dirOpen fs site.root q0 = .ok e0 ∧ e0.isDir = false ∧
       ((q0 = p ∧ e0 = d) ∨ (d.isDir = true ∧ ∃ ip ∈ site.indexPages, q0 = join2 p ip)) ∧
-      (e0.ino = ino ∨ ∃ ne ∈ site.encodings, ∃ e, dirOpen fs site.root (q0 ++ ne.2) = .ok e ∧ e.isDir = false ∧ e.ino = ino) := by
+      (e0.ino = ino ∨ ∃ ne ∈ site.encodings, ∃ e, dirOpen fs site.root (q0 ++ ne.2) = .ok e ∧ e.isDir = false ∧ e.ino = ino) ∧
+      e0 = (resolveIndex fs site d p).1 := by
   unfold staticContent at h
   simp only [] at h
   have hres : (resolveIndex fs site d p = (d, p)) ∨
@@ -261,8 +264,9 @@ theorem staticContent_file_cases {fs : FS} {site : Site} {r : Req} {d : Entry} {
       · refine ⟨join2 p ip, (resolveIndex fs site d p).1, ?_, hop, Or.inr ⟨hdir, ip, hm, rfl⟩⟩
         rw [← hq]
     obtain ⟨q0, e0, hr, hop0, hwhich⟩ := hbase
+    have hres0 : e0 = (resolveIndex fs site d p).1 := by rw [hr]
     rw [hr] at h hnot
-    refine ⟨q0, e0, hop0, hnot.1, hwhich, ?_⟩
+    refine ⟨q0, e0, hop0, hnot.1, hwhich, ?_, hres0⟩
     split at h
     · rename_i ne hfs
       obtain ⟨name, e⟩ := ne
@@ -404,14 +408,22 @@ def SiblingSafe (fs : FS) (cs : ChainSite) (creds : Option (Bytes × Bytes)) : P
     ne ∈ cs.site.encodings → dirOpen fs cs.site.root (q ++ ne.2) = .ok e → e.isDir = false →
     covered cs creds (canonURL cs.site e) = true → covered cs creds (canonURL cs.site e0) = true
 
-/-- Excludes exactly finding F3: a directory URL that is not covered has no covered file below it. -/
+/-- Excludes exactly finding F3: a directory URL inside an archive-enabled browse scope that is
+not covered has no covered file below it. -/
 def ArchiveSafe (fs : FS) (cs : ChainSite) (creds : Option (Bytes × Bytes)) : Prop :=
-  ∀ p d e, Rooted p → dirOf fs cs.site p = some d → e ∈ fs → e.isDir = false →
+  ∀ p bc d e, Rooted p → p.getLast? = some slash →
+    bc ∈ cs.site.browse → bc.archives ≠ [] → pathMatches p bc.scope = true →
+    dirOf fs cs.site p = some d → e ∈ fs → e.isDir = false →
     (∃ rel, rel ≠ [] ∧ e.path = d.path ++ rel) →
     covered cs creds (canonURL cs.site e) = true → covered cs creds p = true
 
 /-- no browse scope of the site offers archives -/
 def NoArchives (site : Site) : Prop := ∀ bc ∈ site.browse, bc.archives = []
+
+theorem archiveSafe_of_noArchives {fs : FS} {cs : ChainSite} {creds : Option (Bytes × Bytes)}
+    (h : NoArchives cs.site) : ArchiveSafe fs cs creds := by
+  intro p bc d e _ _ hbc hne
+  exact absurd (h bc hbc) hne
 
 /-- a proxy scope that is covered covers every path it matches; backend numbers name one scope -/
 def BackendSafe (cs : ChainSite) (creds : Option (Bytes × Bytes)) : Prop :=
@@ -477,12 +489,17 @@ theorem serveListing_archive_enabled {fs : FS} {site : Site} {bc : BrowseCfg} {r
     · split at h <;> simp at h
 
 theorem browseServe_archive_enabled {fs : FS} {site : Site} {r : Req} {items : List Item}
-    (h : browseServe fs site r = .archive items) : ∃ bc ∈ site.browse, bc.archives ≠ [] := by
+    (h : browseServe fs site r = .archive items) :
+    ∃ bc ∈ site.browse, bc.archives ≠ [] ∧ pathMatches r.url.path bc.scope = true ∧
+      (r.url.path ≠ [] → r.url.path.getLast? = some slash) := by
   unfold browseServe at h
   split at h
   · exact absurd h staticServe_not_archive
   · rename_i bc hfind
     have hmem : bc ∈ site.browse := List.mem_of_find?_eq_some hfind
+    have hmatch : pathMatches r.url.path bc.scope = true := by
+      have := List.find?_some hfind
+      simpa using this
     split at h
     · exact absurd h staticServe_not_archive
     · split at h
@@ -492,7 +509,16 @@ theorem browseServe_archive_enabled {fs : FS} {site : Site} {r : Req} {items : L
           by_cases hl2 : (if r.url.path = [] then [slash] else r.url.path).getLast? ≠ some slash
           · rw [if_pos hl2] at h; simp at h
           · rw [if_neg hl2] at h
-            exact ⟨bc, hmem, serveListing_archive_enabled h⟩
+            refine ⟨bc, hmem, serveListing_archive_enabled h, hmatch, ?_⟩
+            intro hne
+            simp only [hne, if_false] at hl2
+            cases hx : r.url.path.getLast? with
+            | none => rw [hx] at hl2; simp at hl2
+            | some c =>
+              rw [hx] at hl2
+              by_cases hc : c = slash
+              · rw [hc]
+              · exact absurd (by simp [hc]) hl2
         · split at h
           · simp at h
           · exact absurd h staticServe_not_archive
@@ -503,7 +529,7 @@ theorem guarded_verdict_ok {fs : FS} {cs : ChainSite} {r : CReq} {u : Url}
     (hroot : NormalSegs cs.site.root) (hpre : NormalPrefix cs.site.pathPrefix) (hrd : RootIsDir fs cs.site)
     (hu : Rooted u.path) (hl : NoHardLinks fs)
     (his : IndexSafe fs cs r.creds) (hss : SiblingSafe fs cs r.creds)
-    (has : ArchiveSafe fs cs r.creds ∨ NoArchives cs.site) (hbs : BackendSafe cs r.creds) :
+    (has : ArchiveSafe fs cs r.creds) (hbs : BackendSafe cs r.creds) :
     ChainSpec.verdict fs cs r (guarded fs cs r u) = "ok" := by
   unfold ChainSpec.verdict
   by_cases hopt : r.method = mOPTIONS
@@ -576,7 +602,7 @@ theorem guarded_verdict_ok {fs : FS} {cs : ChainSite} {r : CReq} {u : Url}
           have hs := browseServe_file hb
           obtain ⟨d, hd, hlf, hld, hsc⟩ := staticServe_file_inv hs
           simp only [] at hd hsc hlf hld
-          obtain ⟨q0, e0, hop0, hf0, hwhich, hino⟩ := staticContent_file_cases hd hsc
+          obtain ⟨q0, e0, hop0, hf0, hwhich, hino, hres0⟩ := staticContent_file_cases hd hsc
           obtain ⟨t, ht⟩ := hu
           obtain ⟨_, _, hlast, _⟩ := fullPath_facts (site := cs.site) (t := t) hpre
           -- the plain file (named directly, or an index page) is not covered
@@ -605,11 +631,9 @@ theorem guarded_verdict_ok {fs : FS} {cs : ChainSite} {r : CReq} {u : Url}
         | archive items =>
           obtain ⟨d, hdir, hall⟩ := browseServe_archive hroot hb
           simp only [] at hdir
-          have has' : ArchiveSafe fs cs r.creds := by
-            rcases has with h | h
-            · exact h
-            · obtain ⟨bc, hbc, hne⟩ := browseServe_archive_enabled hb
-              exact absurd (h bc hbc) hne
+          obtain ⟨bc, hbc, hbne, hbm, hbl⟩ := browseServe_archive_enabled hb
+          simp only [] at hbm hbl
+          have hul : u.path.getLast? = some slash := hbl (by obtain ⟨t, ht⟩ := hu; rw [ht]; simp)
           have key : ∀ ino ∈ contentInos (.archive items), internalIno fs cs ino = false ∧ protectedIno fs cs r.creds ino = false := by
             intro ino hin
             simp only [contentInos, List.mem_filterMap] at hin
@@ -626,7 +650,7 @@ theorem guarded_verdict_ok {fs : FS} {cs : ChainSite} {r : CReq} {u : Url}
             have hcov : covered cs r.creds (canonURL cs.site e) = false := by
               cases hc : covered cs r.creds (canonURL cs.site e) with
               | false => rfl
-              | true => rw [has' _ _ _ hu hdir he hnd ⟨_, hrel, hpath⟩ hc] at hcovu; cases hcovu
+              | true => rw [has _ _ _ _ hu hul hbc hbne hbm hdir he hnd ⟨_, hrel, hpath⟩ hc] at hcovu; cases hcovu
             have := not_flagged hl he hcov
             rw [hi] at this
             exact this
@@ -642,7 +666,7 @@ theorem chainServe_verdict_ok {fs : FS} {cs : ChainSite} {r : CReq}
     (hroot : NormalSegs cs.site.root) (hpre : NormalPrefix cs.site.pathPrefix) (hrd : RootIsDir fs cs.site)
     (hw : TargetsNonEmpty cs) (hl : NoHardLinks fs)
     (his : IndexSafe fs cs r.creds) (hss : SiblingSafe fs cs r.creds)
-    (has : ArchiveSafe fs cs r.creds ∨ NoArchives cs.site) (hbs : BackendSafe cs r.creds) :
+    (has : ArchiveSafe fs cs r.creds) (hbs : BackendSafe cs r.creds) :
     ChainSpec.verdict fs cs r (chainServe fs cs r) = "ok" := by
   have hstatus : ∀ c, ChainSpec.verdict fs cs r (.served (.status c)) = "ok" := by
     intro c; unfold ChainSpec.verdict; split <;> simp [contentInos]
@@ -659,6 +683,76 @@ theorem chainServe_verdict_ok {fs : FS} {cs : ChainSite} {r : CReq}
         · exact hok.1
         · exact (trimPathPrefix_ok hok).1
       exact guarded_verdict_ok hroot hpre hrd (authUrl_rooted fs cs u0.path _ hu hw) hl his hss has hbs
+
+/-- The file whose mtime goes into Last-Modified (the named file or index page, before sibling
+substitution) is not covered either whenever a file answer is served: HEAD, 304 and 206 answers
+disclose no metadata of a covered file. -/
+theorem guarded_resolved_ok {fs : FS} {cs : ChainSite} {r : CReq} {u : Url} {ino : Nat} {enc : Option Bytes}
+    (hroot : NormalSegs cs.site.root) (hpre : NormalPrefix cs.site.pathPrefix) (hrd : RootIsDir fs cs.site)
+    (hu : Rooted u.path) (hl : NoHardLinks fs) (his : IndexSafe fs cs r.creds)
+    (hg : guarded fs cs r u = .served (.file ino enc)) :
+    ChainSpec.verdict fs cs r (.served (.file (Casket.Cond.resolvedIno fs cs.site u) none)) = "ok" := by
+  unfold ChainSpec.verdict
+  by_cases hopt : r.method = mOPTIONS
+  · simp [hopt]
+  · simp only [hopt, if_false]
+    rcases guarded_served_inv hg with h404 | ⟨hint, hauth, hb⟩
+    · simp at h404
+    · have hna : needsAuth cs.auth u.path r.creds = false := hauth.resolve_left hopt
+      have hcovu : covered cs r.creds u.path = false := by unfold covered; rw [hna, hint]; rfl
+      have hs := browseServe_file hb
+      obtain ⟨d, hd, hlf, hld, hsc⟩ := staticServe_file_inv hs
+      simp only [] at hd hsc hlf hld
+      obtain ⟨q0, e0, hop0, hf0, hwhich, _, hres0⟩ := staticContent_file_cases hd hsc
+      obtain ⟨t, ht⟩ := hu
+      obtain ⟨_, _, hlast, _⟩ := fullPath_facts (site := cs.site) (t := t) hpre
+      have hcov0 : covered cs r.creds (canonURL cs.site e0) = false := by
+        rcases hwhich with ⟨hq, he⟩ | ⟨hdir, ip, hip, hq⟩
+        · subst hq; subst he
+          exact direct_not_covered hroot hpre hrd ⟨t, ht⟩ hg hop0 hf0
+        · have hsl : u.path.getLast? = some slash := by
+            rw [ht, ← hlast, ← ht]; exact hld hdir
+          cases hc : covered cs r.creds (canonURL cs.site e0) with
+          | false => rfl
+          | true => rw [his _ _ _ ⟨t, ht⟩ hsl hip (hq ▸ hop0) hf0 hc] at hcovu; cases hcovu
+      obtain ⟨h1, h2⟩ := not_flagged hl (dirOpen_mem hop0 hf0) hcov0
+      have hri : Casket.Cond.resolvedIno fs cs.site u = e0.ino := by
+        simp [Casket.Cond.resolvedIno, hd, hres0]
+      rw [hri]
+      simp [contentInos, h1, h2]
+
+theorem chainServe_finalUrl {fs : FS} {cs : ChainSite} {r : CReq} {u : Url} (h : finalUrl fs cs r = some u) :
+    chainServe fs cs r = guarded fs cs r u ∧ (TargetsNonEmpty cs → Rooted u.path) := by
+  unfold finalUrl at h
+  unfold chainServe
+  cases hp : parseRequestURI r.target with
+  | none => simp [hp] at h
+  | some u0 =>
+    simp only [hp] at h ⊢
+    split at h
+    · simp at h
+    · rename_i hc
+      simp only [Option.some.injEq] at h
+      rw [if_neg hc, h]
+      refine ⟨rfl, ?_⟩
+      intro hw
+      have hok := parseRequestURI_ok hp
+      have hu : Rooted (if cs.site.pathPrefix = [slash] then u0 else trimPathPrefix u0 cs.site.pathPrefix).path := by
+        split
+        · exact hok.1
+        · exact (trimPathPrefix_ok hok).1
+      rw [← h]
+      exact authUrl_rooted fs cs u0.path _ hu hw
+
+/-- Whole chain: the file named by Last-Modified / used for If-Modified-Since passes the judge too. -/
+theorem chainServe_resolved_ok {fs : FS} {cs : ChainSite} {r : CReq} {u : Url} {ino : Nat} {enc : Option Bytes}
+    (hroot : NormalSegs cs.site.root) (hpre : NormalPrefix cs.site.pathPrefix) (hrd : RootIsDir fs cs.site)
+    (hw : TargetsNonEmpty cs) (hl : NoHardLinks fs) (his : IndexSafe fs cs r.creds)
+    (hu : finalUrl fs cs r = some u) (h : chainServe fs cs r = .served (.file ino enc)) :
+    ChainSpec.verdict fs cs r (.served (.file (Casket.Cond.resolvedIno fs cs.site u) none)) = "ok" := by
+  obtain ⟨he, hr⟩ := chainServe_finalUrl hu
+  rw [he] at h
+  exact guarded_resolved_ok hroot hpre hrd (hr hw) hl his h
 
 /-- With credentials every covering rule accepts, basicauth is transparent. -/
 theorem needsAuth_of_accepts (rules : List AuthRule) (p : Bytes) (creds : Option (Bytes × Bytes))
@@ -1386,7 +1480,342 @@ theorem chainServe_verdict_ok_dirScoped {fs : FS} {cs : ChainSite} {r : CReq}
     (hds : DirScoped cs) (hpn : PlainNames cs.site) (hna : NoArchives cs.site) (hnp : cs.proxies = []) :
     ChainSpec.verdict fs cs r (chainServe fs cs r) = "ok" :=
   chainServe_verdict_ok hroot hpre hrd hw hl
-    (indexSafe_of_dirScoped hds hroot hpn) (siblingSafe_of_dirScoped hds hroot hrd hpn) (Or.inr hna)
+    (indexSafe_of_dirScoped hds hroot hpn) (siblingSafe_of_dirScoped hds hroot hrd hpn) (archiveSafe_of_noArchives hna)
     ⟨by intro p x hx; rw [hnp] at hx; simp at hx, by intro x hx; rw [hnp] at hx; simp at hx⟩
+
+/-! ## §7 archives and proxies: scopes that do not lie strictly above a protection scope -/
+
+/-- the normal form `Path.Matches` compares: cleaned, trailing slash kept -/
+def norm (x : Bytes) : Bytes := if hasSuffix x [slash] then clean x ++ [slash] else clean x
+
+theorem pathMatches_norm (p b : Bytes) :
+    pathMatches p b = if b = [slash] ∨ b = [] then true else hasPrefix (toLower (norm p)) (toLower (norm b)) := rfl
+
+/-- every path a protection directive of the site names -/
+def allBases (cs : ChainSite) : List Bytes := cs.auth.flatMap (fun r => r.resources ++ r.excludes) ++ cs.internal
+
+theorem covered_congr_mem {cs : ChainSite} {creds : Option (Bytes × Bytes)} {c p : Bytes}
+    (h : ∀ b ∈ allBases cs, pathMatches c b = pathMatches p b) : covered cs creds c = covered cs creds p := by
+  have hb : ∀ r ∈ cs.auth, ∀ b ∈ r.resources ++ r.excludes, b ∈ allBases cs := by
+    intro r hr b hb
+    unfold allBases
+    exact List.mem_append_left _ (List.mem_flatMap.mpr ⟨r, hr, hb⟩)
+  have hr : ∀ r ∈ cs.auth, ruleCovers r c = ruleCovers r p := by
+    intro r hr
+    unfold ruleCovers
+    rw [any_congr_mem r.resources _ _ (fun b hm => h b (hb r hr b (List.mem_append_left _ hm))),
+      any_congr_mem r.excludes _ _ (fun b hm => h b (hb r hr b (List.mem_append_right _ hm)))]
+  unfold covered needsAuth isInternal
+  rw [any_congr_mem cs.auth _ _ hr,
+    any_congr_mem cs.auth (fun r => ruleCovers r c && ruleAccepts r creds) (fun r => ruleCovers r p && ruleAccepts r creds)
+      (fun r hm => by rw [hr r hm]),
+    any_congr_mem cs.internal _ _ (fun b hm => h b (List.mem_append_right _ hm))]
+
+theorem dirScoped_allBases {cs : ChainSite} (hds : DirScoped cs) : ∀ b ∈ allBases cs, DirBase b := by
+  intro b hb
+  unfold allBases at hb
+  rcases List.mem_append.mp hb with h | h
+  · obtain ⟨r, hr, hm⟩ := List.mem_flatMap.mp h
+    rcases List.mem_append.mp hm with h1 | h1
+    · exact (hds.1 r hr).1 b h1
+    · exact (hds.1 r hr).2 b h1
+  · exact hds.2 b h
+
+/-- a browse or proxy scope in normal form: `/`, `/a/b` or `/a/b/` -/
+def PlainScope (s : Bytes) : Prop :=
+  s = [slash] ∨ ∃ S, S ≠ [] ∧ NormalSegs S ∧ (s = slash :: joinSlash S ∨ s = slash :: joinSlash S ++ [slash])
+
+theorem toLower_join_head {S : List Bytes} (hne : S ≠ []) (hn : NormalSegs S) :
+    toLower (joinSlash S) ≠ [] ∧ (toLower (joinSlash S)).head? ≠ some slash := by
+  have hb : DirBase (slash :: joinSlash S ++ [slash]) := ⟨S, hne, hn, rfl⟩
+  obtain ⟨J, hJ, h1, h2⟩ := toLower_dirBase hb
+  have : toLower (slash :: joinSlash S ++ [slash]) = slash :: toLower (joinSlash S) ++ [slash] := by
+    rw [show slash :: joinSlash S ++ [slash] = (slash :: joinSlash S) ++ slash :: [] by simp, toLower_append_slash,
+      toLower_cons_slash]
+    simp [toLower]
+  rw [this] at hJ
+  have hJe : toLower (joinSlash S) = J := by
+    have := List.cons.inj hJ
+    exact List.append_cancel_right this.2
+  rw [hJe]; exact ⟨h1, h2⟩
+
+/-- a non-trivial plain scope is its own normal form and starts with `/x`, x ≠ `/` -/
+theorem plainScope_facts {s : Bytes} (h : PlainScope s) (hs : s ≠ [slash]) :
+    s ≠ [] ∧ norm s = s ∧ ∃ J, toLower s = slash :: J ∧ J ≠ [] ∧ J.head? ≠ some slash := by
+  rcases h with h | ⟨S, hne, hn, h | h⟩
+  · exact absurd h hs
+  · subst h
+    obtain ⟨h1, h2⟩ := toLower_join_head hne hn
+    refine ⟨by simp, ?_, toLower (joinSlash S), toLower_cons_slash _, h1, h2⟩
+    unfold norm
+    have hsuf : hasSuffix (slash :: joinSlash S) [slash] = false := by
+      cases hh : hasSuffix (slash :: joinSlash S) [slash] with
+      | false => rfl
+      | true =>
+        have hl := (hasSuffix_singleton _ _).mp hh
+        have hj := getLast?_joinSlash hne hn
+        cases hJ : joinSlash S with
+        | nil => rw [hJ] at h1; simp [toLower] at h1
+        | cons y ys => rw [hJ] at hl hj; rw [List.getLast?_cons_cons] at hl; exact absurd hl hj
+    simp only [hsuf, Bool.false_eq_true, if_false]
+    exact clean_canon S hn
+  · subst h
+    have hb : DirBase (slash :: joinSlash S ++ [slash]) := ⟨S, hne, hn, rfl⟩
+    obtain ⟨f1, f2, f3, f4⟩ := dirBase_facts hb
+    obtain ⟨h1, h2⟩ := toLower_join_head hne hn
+    refine ⟨f1, ?_, toLower (joinSlash S) ++ [slash], ?_, by simp, ?_⟩
+    · unfold norm; simp only [f3, if_true, f4]
+    · rw [show slash :: joinSlash S ++ [slash] = (slash :: joinSlash S) ++ slash :: [] by simp, toLower_append_slash,
+        toLower_cons_slash]
+      simp [toLower]
+    · rw [head?_append_of_ne_nil h1]; exact h2
+
+theorem norm_dirBase {b : Bytes} (h : DirBase b) : norm b = b := by
+  obtain ⟨_, _, f3, f4⟩ := dirBase_facts h
+  unfold norm; simp only [f3, if_true, f4]
+
+/-- the scope does not lie strictly above a protection scope: whatever protection scope lies
+under it contains it -/
+def ScopeClear (cs : ChainSite) (s : Bytes) : Prop :=
+  PlainScope s ∧ ∀ b ∈ allBases cs, pathMatches b s = true → pathMatches s b = true
+
+
+theorem joinSlash_append {E R : List Bytes} (hE : E ≠ []) (hR : R ≠ []) :
+    joinSlash (E ++ R) = joinSlash E ++ slash :: joinSlash R := by
+  induction E with
+  | nil => exact absurd rfl hE
+  | cons s r ih =>
+    cases r with
+    | nil =>
+      cases R with
+      | nil => exact absurd rfl hR
+      | cons x xs => simp [joinSlash]
+    | cons s2 r2 =>
+      have := ih (by simp)
+      simp only [List.cons_append, joinSlash] at this ⊢
+      rw [this]; simp
+
+/-- no directory scope matches the path `/` -/
+theorem dirBase_not_root {b : Bytes} (hb : DirBase b) : hasPrefix (toLower [slash, slash]) (toLower b) = false := by
+  obtain ⟨J, hJ, hJne, hJh⟩ := toLower_dirBase hb
+  cases hh : hasPrefix (toLower [slash, slash]) (toLower b) with
+  | false => rfl
+  | true =>
+    exfalso
+    rw [hasPrefix_iff, hJ, show toLower [slash, slash] = [slash, slash] by decide,
+      show slash :: J ++ [slash] = slash :: (J ++ [slash]) by simp, List.cons_prefix_cons] at hh
+    cases J with
+    | nil => exact hJne rfl
+    | cons a r =>
+      have h2 := hh.2
+      simp only [List.cons_append, List.cons_prefix_cons] at h2
+      exact hJh (by simp [h2.1])
+
+theorem scopeClear_trivial_no_bases {cs : ChainSite} (hds : DirScoped cs) (hsc : ScopeClear cs [slash]) :
+    ∀ b, b ∉ allBases cs := by
+  intro b hb
+  have hdb := dirScoped_allBases hds b hb
+  have h1 := hsc.2 b hb (by simp [pathMatches])
+  rw [pathMatches_dirBase hdb] at h1
+  have hn : (if hasSuffix [slash] [slash] = true then clean [slash] ++ [slash] else clean [slash]) = [slash, slash] := by decide
+  rw [hn, dirBase_not_root hdb] at h1
+  cases h1
+
+/-- Inside a clear archive scope, a file below a directory and the directory URL fall under
+exactly the same protection scopes of the site. -/
+theorem archive_pathMatches {cs : ChainSite} (hds : DirScoped cs) {s t b : Bytes} {R : List Bytes}
+    (hsc : ScopeClear cs s) (hlast : (slash :: t).getLast? = some slash)
+    (hs : pathMatches (slash :: t) s = true) (hR : R ≠ [])
+    (hn : NormalSegs (jailElems (slash :: t) ++ R)) (hb : b ∈ allBases cs) :
+    pathMatches (slash :: joinSlash (jailElems (slash :: t) ++ R)) b = pathMatches (slash :: t) b := by
+  have hdb := dirScoped_allBases hds b hb
+  have hsuf : hasSuffix (slash :: t) [slash] = true := (hasSuffix_singleton _ _).mpr hlast
+  rw [pathMatches_canon_dirBase (by simp [hR]) hn hdb, pathMatches_dirBase hdb]
+  simp only [hsuf, if_true]
+  rw [clean_rooted]
+  -- how the scope matched the directory URL
+  have hs' := hs
+  rw [pathMatches_norm] at hs'
+  have hnp : norm (slash :: t) = slash :: joinSlash (jailElems (slash :: t)) ++ [slash] := by
+    unfold norm; simp only [hsuf, if_true]; rw [clean_rooted]
+  rw [hnp] at hs'
+  generalize jailElems (slash :: t) = E at *
+  by_cases hE : E = []
+  · -- the site root: only the scope "/" matches it, and a clear "/" means there is nothing to protect
+    subst hE
+    exfalso
+    by_cases hst : s = [slash]
+    · subst hst; exact scopeClear_trivial_no_bases hds hsc b hb
+    · obtain ⟨hsne, hsn, J, hJ, hJne, hJh⟩ := plainScope_facts hsc.1 hst
+      have : ¬ (s = [slash] ∨ s = []) := fun h => h.elim hst hsne
+      simp only [this, if_false, hsn, hJ, joinSlash] at hs'
+      rw [hasPrefix_iff, show toLower (slash :: [] ++ [slash]) = [slash, slash] by decide, List.cons_prefix_cons] at hs'
+      cases J with
+      | nil => exact hJne rfl
+      | cons a r =>
+        have h2 := hs'.2
+        simp only [List.cons_prefix_cons] at h2
+        exact hJh (by simp [h2.1])
+  · rw [joinSlash_append hE hR,
+      show slash :: (joinSlash E ++ slash :: joinSlash R) = (slash :: joinSlash E) ++ slash :: joinSlash R by simp,
+      toLower_append_slash,
+      show slash :: joinSlash E ++ [slash] = (slash :: joinSlash E) ++ slash :: [] by simp, toLower_append_slash]
+    rw [show slash :: joinSlash E ++ [slash] = (slash :: joinSlash E) ++ slash :: [] by simp, toLower_append_slash] at hs'
+    simp only [toLower] at hs' ⊢
+    generalize toLower (slash :: joinSlash E) = T at *
+    have hPX : T ++ [slash] <+: T ++ slash :: toLower (joinSlash R) := by
+      rw [show T ++ slash :: toLower (joinSlash R) = (T ++ [slash]) ++ toLower (joinSlash R) by simp]
+      exact List.prefix_append _ _
+    apply bool_eq_of_iff
+    rw [hasPrefix_iff, hasPrefix_iff]
+    constructor
+    · intro hbX
+      rcases List.prefix_or_prefix_of_prefix hbX hPX with h | hPb
+      · exact h
+      · -- the protection scope lies below the directory: then it lies under the archive scope,
+        -- so by clearness the archive scope lies under it
+        have hbs : pathMatches b s = true := by
+          by_cases hst : s = [slash]
+          · simp [pathMatches, hst]
+          · obtain ⟨hsne, hsn, _⟩ := plainScope_facts hsc.1 hst
+            have : ¬ (s = [slash] ∨ s = []) := fun h => h.elim hst hsne
+            rw [pathMatches_norm]
+            simp only [this, if_false, hsn, norm_dirBase hdb] at hs' ⊢
+            rw [hasPrefix_iff] at hs' ⊢
+            exact List.IsPrefix.trans hs' hPb
+        have hsb := hsc.2 b hb hbs
+        rw [pathMatches_dirBase hdb] at hsb
+        by_cases hst : s = [slash]
+        · subst hst
+          have hn' : (if hasSuffix [slash] [slash] = true then clean [slash] ++ [slash] else clean [slash]) = [slash, slash] := by decide
+          rw [hn', dirBase_not_root hdb] at hsb
+          cases hsb
+        · obtain ⟨hsne, hsn, _⟩ := plainScope_facts hsc.1 hst
+          have : ¬ (s = [slash] ∨ s = []) := fun h => h.elim hst hsne
+          simp only [this, if_false, hsn] at hs'
+          have hsn' : (if hasSuffix s [slash] = true then clean s ++ [slash] else clean s) = s := hsn
+          rw [hsn', hasPrefix_iff] at hsb
+          rw [hasPrefix_iff] at hs'
+          exact List.IsPrefix.trans hsb hs'
+    · intro h
+      exact List.IsPrefix.trans h hPX
+
+
+/-- every entry of the file-system table has an ordinary path (true of every real file system) -/
+def NormalFS (fs : FS) : Prop := ∀ e ∈ fs, NormalSegs e.path
+
+/-- no `servearchive` browse scope lies strictly above a protection scope -/
+def ArchiveScopesClear (cs : ChainSite) : Prop :=
+  ∀ bc ∈ cs.site.browse, bc.archives ≠ [] → ScopeClear cs bc.scope
+
+theorem archiveSafe_of_clear {fs : FS} {cs : ChainSite} {creds : Option (Bytes × Bytes)}
+    (hds : DirScoped cs) (hroot : NormalSegs cs.site.root) (hfs : NormalFS fs) (hac : ArchiveScopesClear cs) :
+    ArchiveSafe fs cs creds := by
+  intro p bc d e hp hlast hbc hne hmatch hdir he _ hrel hc
+  obtain ⟨t, rfl⟩ := hp
+  obtain ⟨rel, hrne, hpath⟩ := hrel
+  have hopen : dirOpen fs cs.site.root (slash :: t) = .ok d := by
+    unfold dirOf at hdir
+    cases ho : dirOpen fs cs.site.root (slash :: t) with
+    | error _ => simp [ho] at hdir
+    | ok d' =>
+      simp only [ho] at hdir
+      split at hdir
+      · simp only [Option.some.injEq] at hdir; rw [hdir]
+      · simp at hdir
+  have hdp := dirOpen_path hroot hopen
+  have hcanon : canonURL cs.site e = slash :: joinSlash (jailElems (slash :: t) ++ rel) := by
+    unfold canonURL
+    rw [hpath, hdp, List.append_assoc, List.drop_left]
+  have hn : NormalSegs (jailElems (slash :: t) ++ rel) := by
+    intro s hs
+    apply hfs e he s
+    rw [hpath, hdp, List.append_assoc]
+    exact List.mem_append_right _ hs
+  rw [hcanon] at hc
+  rw [← covered_congr_mem (fun b hb => archive_pathMatches hds (hac bc hbc hne) hlast hmatch hrne hn hb)]
+  exact hc
+
+/-- no `proxy` scope lies strictly above a protection scope; backend numbers name one scope -/
+def ProxyScopesClear (cs : ChainSite) : Prop :=
+  (∀ x ∈ cs.proxies, ScopeClear cs x.1) ∧ (∀ x ∈ cs.proxies, ∀ y ∈ cs.proxies, x.2 = y.2 → x = y)
+
+theorem covered_false_of_no_match {cs : ChainSite} {creds : Option (Bytes × Bytes)} {p : Bytes}
+    (h : ∀ b ∈ allBases cs, pathMatches p b = false) : covered cs creds p = false := by
+  have hr : ∀ r ∈ cs.auth, ruleCovers r p = false := by
+    intro r hr
+    unfold ruleCovers
+    have : r.resources.any (pathMatches p) = false := by
+      rw [List.any_eq_false]
+      intro b hb
+      have := h b (by unfold allBases; exact List.mem_append_left _ (List.mem_flatMap.mpr ⟨r, hr, List.mem_append_left _ hb⟩))
+      simp [this]
+    simp [this]
+  unfold covered needsAuth isInternal
+  have h1 : cs.auth.any (fun r => ruleCovers r p) = false := by
+    rw [List.any_eq_false]; intro r hm; simp [hr r hm]
+  have h2 : cs.internal.any (pathMatches p) = false := by
+    rw [List.any_eq_false]; intro b hb
+    have := h b (List.mem_append_right _ hb)
+    simp [this]
+  simp [h1, h2]
+
+/-- A path matched by a clear proxy scope and the scope itself fall under the same protection scopes. -/
+theorem proxy_pathMatches {cs : ChainSite} (hds : DirScoped cs) {f p b : Bytes} (hsc : ScopeClear cs f)
+    (hf : f ≠ [slash]) (hm : pathMatches p f = true) (hb : b ∈ allBases cs) :
+    pathMatches f b = pathMatches p b := by
+  have hdb := dirScoped_allBases hds b hb
+  obtain ⟨hfne, hfn, _⟩ := plainScope_facts hsc.1 hf
+  have hfn' : (if hasSuffix f [slash] = true then clean f ++ [slash] else clean f) = f := hfn
+  rw [pathMatches_norm] at hm
+  have : ¬ (f = [slash] ∨ f = []) := fun h => h.elim hf hfne
+  simp only [this, if_false, hfn] at hm
+  rw [pathMatches_dirBase hdb, pathMatches_dirBase hdb, hfn']
+  have hnp : (if hasSuffix p [slash] = true then clean p ++ [slash] else clean p) = norm p := rfl
+  rw [hnp]
+  apply bool_eq_of_iff
+  rw [hasPrefix_iff, hasPrefix_iff]
+  rw [hasPrefix_iff] at hm
+  constructor
+  · intro h; exact List.IsPrefix.trans h hm
+  · intro h
+    rcases List.prefix_or_prefix_of_prefix h hm with h1 | h1
+    · exact h1
+    · -- the protection scope lies under the proxy scope, so by clearness the proxy scope lies under it
+      have hbf : pathMatches b f = true := by
+        rw [pathMatches_norm]
+        simp only [this, if_false, hfn, norm_dirBase hdb]
+        rw [hasPrefix_iff]; exact h1
+      have := hsc.2 b hb hbf
+      rw [pathMatches_dirBase hdb, hfn', hasPrefix_iff] at this
+      exact this
+
+theorem backendSafe_of_clear {cs : ChainSite} {creds : Option (Bytes × Bytes)}
+    (hds : DirScoped cs) (hpc : ProxyScopesClear cs) : BackendSafe cs creds := by
+  refine ⟨?_, hpc.2⟩
+  intro p x hx hm hc
+  by_cases hf : x.1 = [slash]
+  · -- the scope "/" as a path is not under any directory scope
+    exfalso
+    have : covered cs creds x.1 = false := by
+      apply covered_false_of_no_match
+      intro b hb
+      have hdb := dirScoped_allBases hds b hb
+      rw [hf, pathMatches_dirBase hdb]
+      have hn' : (if hasSuffix [slash] [slash] = true then clean [slash] ++ [slash] else clean [slash]) = [slash, slash] := by decide
+      rw [hn']; exact dirBase_not_root hdb
+    rw [this] at hc; cases hc
+  · rw [← covered_congr_mem (fun b hb => proxy_pathMatches hds (hpc.1 x hx) hf hm hb)]
+    exact hc
+
+/-- The no-disclosure theorem with syntactic hypotheses only, archives and proxies allowed. -/
+theorem chainServe_verdict_ok_clear {fs : FS} {cs : ChainSite} {r : CReq}
+    (hroot : NormalSegs cs.site.root) (hpre : NormalPrefix cs.site.pathPrefix) (hrd : RootIsDir fs cs.site)
+    (hw : TargetsNonEmpty cs) (hl : NoHardLinks fs) (hfs : NormalFS fs)
+    (hds : DirScoped cs) (hpn : PlainNames cs.site) (hac : ArchiveScopesClear cs) (hpc : ProxyScopesClear cs) :
+    ChainSpec.verdict fs cs r (chainServe fs cs r) = "ok" :=
+  chainServe_verdict_ok hroot hpre hrd hw hl
+    (indexSafe_of_dirScoped hds hroot hpn) (siblingSafe_of_dirScoped hds hroot hrd hpn)
+    (archiveSafe_of_clear hds hroot hfs hac) (backendSafe_of_clear hds hpc)
 
 end Casket.ChainProofs
